@@ -45,6 +45,10 @@ type part struct {
 	Test    string
 	Overlay bool   // build with the E2 shim overlay (e2rewrite) and tag e2
 	Tiers   string // "" = both tiers, else "quick" or "thorough"
+	// Race marks the auxiliary free-running pass: the same scenario bodies built with -race and run on
+	// several Ps. It is NOT part of the model-checking claim (a different technique); only data-race reports
+	// of the race detector are taken from it, its own oracle results are ignored.
+	Race bool
 }
 
 type result struct {
@@ -100,7 +104,9 @@ func goBin() string {
 
 func buildWorker(pkg string) (string, error) { return buildWorkerX(pkg, false) }
 
-func buildWorkerX(pkg string, overlay bool) (string, error) {
+func buildWorkerX(pkg string, overlay bool) (string, error) { return buildWorkerY(pkg, overlay, false) }
+
+func buildWorkerY(pkg string, overlay, race bool) (string, error) {
 	if err := os.MkdirAll(buildDir, 0o755); err != nil {
 		return "", err
 	}
@@ -143,6 +149,15 @@ func buildWorkerX(pkg string, overlay bool) (string, error) {
 		}
 		out = filepath.Join(buildDir, name+".alt.test")
 		args = append(args[:len(args)-1], out, "-modfile="+altMod)
+	}
+	if race {
+		out = strings.TrimSuffix(out, ".test") + ".race.test"
+		for i := range args {
+			if args[i] == "-o" {
+				args[i+1] = out
+			}
+		}
+		args = append(args, "-race")
 	}
 	args = append(args, pkg)
 	cmd := exec.Command(goBin(), args...)
@@ -304,6 +319,8 @@ type workerRun struct {
 	stalled bool
 }
 
+var raceMode bool
+
 func runWorker(bin, test, tier string, shard, nshards, from, deadline int, seed string, tag string) workerRun {
 	out := filepath.Join(buildDir, "out", fmt.Sprintf("%s.%s.%d.json", test, tag, shard))
 	_ = os.MkdirAll(filepath.Dir(out), 0o755)
@@ -314,6 +331,9 @@ func runWorker(bin, test, tier string, shard, nshards, from, deadline int, seed 
 		"VCHECK_OUT="+out, "VCHECK_FROM="+strconv.Itoa(from), "GOMAXPROCS=1", "GODEBUG=asyncpreemptoff=1", "VERIF_SEED="+seed)
 	if deadline > 0 {
 		env = append(env, "VCHECK_DEADLINE_S="+strconv.Itoa(deadline))
+	}
+	if raceMode {
+		env = append(env, "GOMAXPROCS=8", "GODEBUG=", "VCHECK_DEADLINE_S=120")
 	}
 	cmd.Env = env
 	var buf bytes.Buffer
@@ -417,12 +437,45 @@ func runCheck(prop, tier string) int {
 	var results []result
 	var crashes []violation
 	harnessErr := []string{}
+	racePassRuns := 0
 	for _, pt := range parts {
 		pt := pt
 		if old, _ := filepath.Glob(filepath.Join(buildDir, "out", pt.Test+"."+tier+".*")); len(old) > 0 {
 			for _, f := range old {
 				_ = os.Remove(f)
 			}
+		}
+		if pt.Race {
+			// auxiliary free-running -race pass: only race-detector reports count
+			rbin, err := buildWorkerY(pt.Pkg, false, true)
+			if err != nil {
+				fmt.Fprintln(os.Stderr, "HARNESS-ERROR:", err)
+				return 2
+			}
+			raceMode = true
+			var rwg sync.WaitGroup
+			const rshards = 4
+			for sh := 0; sh < rshards; sh++ {
+				rwg.Add(1)
+				go func(sh int) {
+					defer rwg.Done()
+					wr := runWorker(rbin, pt.Test, tier, sh, rshards, 0, 0, seed, "race."+tier)
+					mu.Lock()
+					defer mu.Unlock()
+					racePassRuns++
+					if i := strings.Index(wr.stderr, "WARNING: DATA RACE"); i >= 0 {
+						rep := wr.stderr[i:]
+						if j := strings.Index(rep, "=================="); j > 0 {
+							rep = rep[:j]
+						}
+						_, id, _ := lastJournal(wr.out)
+						crashes = append(crashes, violation{part: pt, Case: id, Key: "data-race:" + raceKey(rep), Text: "the race detector reported a data race in the free-running pass (auxiliary, not part of the model-checking claim):\n" + tailLines(rep, 40)})
+					}
+				}(sh)
+			}
+			rwg.Wait()
+			raceMode = false
+			continue
 		}
 		bin, err := buildWorkerX(pt.Pkg, pt.Overlay)
 		if err != nil {
@@ -641,6 +694,9 @@ func runCheck(prop, tier string) int {
 		"masked_by_known_finding":          maskedByKey,
 		"shards":                           nshards,
 	}
+	if racePassRuns > 0 {
+		cov["auxiliary_race_pass"] = map[string]any{"worker_processes": racePassRuns, "GOMAXPROCS": 8, "note": "same scenario bodies built with -race and run free (no cooperative scheduling); a different technique, only its data-race reports are used"}
+	}
 	if len(samples) == 0 {
 		cov["samples"] = []any{"(no sample recorded)"}
 	}
@@ -714,6 +770,20 @@ func hangKey(out string) string {
 		}
 	}
 	return "unknown"
+}
+
+// raceKey names the first library frame of a race report.
+func raceKey(rep string) string {
+	for _, l := range strings.Split(rep, "\n") {
+		f := strings.TrimSpace(l)
+		if strings.HasPrefix(f, "github.com/pion/dtls/v3") && !strings.Contains(f, "zzverif") {
+			if j := strings.LastIndex(f, "("); j > 0 {
+				f = f[:j]
+			}
+			return f
+		}
+	}
+	return "harness-or-runtime"
 }
 
 func crashKey(out string) string {
